@@ -78,9 +78,10 @@ type dProp struct {
 }
 
 type dPom struct {
-	Path  string  `json:"path"`
-	Decls []dDecl `json:"decls"`
-	Props []dProp `json:"props"`
+	Path      string  `json:"path"`
+	Decls     []dDecl `json:"decls"`
+	Props     []dProp `json:"props"`
+	EmptyMgmt bool    `json:"empty_mgmt"` // the project has a <dependencyManagement> without any <dependency>
 }
 
 // readChain lists, pom by pom, every version declaration in the order of buildOriginalRequirements
@@ -104,6 +105,7 @@ func readChain(files map[string]string, paths []string) ([]dPom, error) {
 		}
 		add("", pr.Deps.Deps, true)
 		add("management", pr.Mgmt.Deps.Deps, true)
+		dp.EmptyMgmt = strings.Contains(topLevelXML(files[p]), "<dependencyManagement") && len(pr.Mgmt.Deps.Deps) == 0
 		for _, x := range pr.Props.L {
 			dp.Props = append(dp.Props, dProp{"", x.XMLName.Local, tr(x.Value)})
 		}
@@ -126,6 +128,22 @@ func readChain(files map[string]string, paths []string) ([]dPom, error) {
 	return out, nil
 }
 
+// topLevelXML: the text of a pom with its <profiles> and <build> blocks cut out (a dependencyManagement
+// element found in it is the project's own)
+func topLevelXML(src string) string {
+	for _, tag := range []string{"profiles", "build"} {
+		for {
+			i := strings.Index(src, "<"+tag+">")
+			j := strings.Index(src, "</"+tag+">")
+			if i < 0 || j < i {
+				break
+			}
+			src = src[:i] + src[j+len(tag)+3:]
+		}
+	}
+	return src
+}
+
 func coqChain(c []dPom) string {
 	poms := make([]string, len(c))
 	for i, p := range c {
@@ -144,7 +162,7 @@ func coqChain(c []dPom) string {
 		if len(ps) > 0 {
 			pl = cf.List(ps)
 		}
-		poms[i] = "{| pm_path := " + cf.Str(p.Path) + "; pm_decls := " + dl + "; pm_props := " + pl + " |}"
+		poms[i] = "{| pm_path := " + cf.Str(p.Path) + "; pm_decls := " + dl + "; pm_props := " + pl + "; pm_empty_mgmt := " + cf.Bool(p.EmptyMgmt) + " |}"
 	}
 	if len(poms) == 0 {
 		return "(@nil pom)"
@@ -152,21 +170,50 @@ func coqChain(c []dPom) string {
 	return cf.List(poms)
 }
 
-// sameShape: the declarations of b restricted to those that sit where a's do (added management entries dropped)
-func keepShape(a, b []dPom) []dPom {
+// keepShape: the declarations of b that sit where a's do, plus -- in the main pom -- the added
+// project-level "management" declarations whose key is in addedKeys, listed in that order (the writer sorts
+// them "for consistency in testing"; their mutual order is a token-level matter).
+func keepShape(a, b []dPom, addedKeys []string) []dPom {
 	out := make([]dPom, len(b))
 	for i := range b {
-		out[i] = dPom{Path: b[i].Path, Props: b[i].Props}
+		out[i] = dPom{Path: b[i].Path, Props: b[i].Props, EmptyMgmt: b[i].EmptyMgmt}
 		if i >= len(a) {
 			out[i].Decls = b[i].Decls
 			continue
 		}
 		wi := 0
+		var added []dDecl
+		addedAt := -1
 		for _, d := range b[i].Decls {
 			if wi < len(a[i].Decls) && d.Origin == a[i].Decls[wi].Origin && d.Key == a[i].Decls[wi].Key {
 				out[i].Decls = append(out[i].Decls, d)
 				wi++
+				continue
 			}
+			isAdded := false
+			if i == 0 && d.Origin == "management" {
+				for _, k := range addedKeys {
+					isAdded = isAdded || k == d.Key
+				}
+			}
+			if isAdded {
+				if addedAt < 0 {
+					addedAt = len(out[i].Decls)
+				}
+				added = append(added, d)
+			}
+		}
+		if len(added) > 0 {
+			var ordered []dDecl
+			for _, k := range addedKeys {
+				for _, d := range added {
+					if d.Key == k {
+						ordered = append(ordered, d)
+					}
+				}
+			}
+			rest := append([]dDecl{}, out[i].Decls[addedAt:]...)
+			out[i].Decls = append(append(out[i].Decls[:addedAt], ordered...), rest...)
 		}
 	}
 	return out
